@@ -18,8 +18,10 @@ class Env:
     pass
 
 
-def make_handler_class(desper, env, name, events):
-    """Handler class for one handler id, decorated with the real event_handler."""
+def make_handler_class(desper, env, name, events, shared=False):
+    """Handler class for one handler id, decorated with the real event_handler.
+    shared: ONE class for all handlers of the behaviour (name is then the list of all handler ids, events the union of
+    their events); each instance carries its own mapping as an instance attribute `__events__` (see reset)."""
     ns = {}
 
     def make_cb(ev):
@@ -53,6 +55,8 @@ def make_handler_class(desper, env, name, events):
     ns['_verif_handler'] = True
     # the truth value of a handler must never matter (an empty container-like component is still a listener)
     ns['__bool__'] = lambda self: not getattr(self, 'falsy', False)
+    if shared:
+        return type('H_shared', (), ns)
     cls = type('H_' + name, (), ns)
     plain = [e for e in events if METHOD_OF[e] == e]
     renamed = {e: METHOD_OF[e] for e in events if METHOD_OF[e] != e}
@@ -89,9 +93,18 @@ class DispatcherAdapter:
         perm = perms[self.counter % len(perms)]
         # spread ranks so that set slots differ: rank r -> r * 7 + 1
         env.rank = {h: perm[i] * 7 + 1 for i, h in enumerate(hs)}
+        # in every fourth behaviour all handlers are instances of ONE class and carry their mapping as an instance
+        # attribute (a generic listener configured per instance): what a handler listens to is read off the handler
+        shared = self.counter % 4 == 2
+        if shared:
+            scls = make_handler_class(self.desper, env, ','.join(hs), sorted(set().union(*[set(init['subs'][h]) for h in hs])), shared=True)
         for h in hs:
-            cls = make_handler_class(self.desper, env, h, sorted(init['subs'][h]))
-            o = cls()
+            if shared:
+                o = scls()
+                o.__events__ = dict({e: METHOD_OF[e] for e in sorted(init['subs'][h])}, **{'only_' + h: 'cb_only'})
+            else:
+                cls = make_handler_class(self.desper, env, h, sorted(init['subs'][h]))
+                o = cls()
             o.name = h
             o.falsy = (self.counter + hs.index(h)) % 2 == 0
             env.objs[h] = o
@@ -99,6 +112,14 @@ class DispatcherAdapter:
             del o
         env.behave = self._behave
         env.equal = self.counter % 3 == 0
+        # a second dispatcher with a listener of every event, kept disabled: nothing that happens to the dispatcher
+        # under test may reach it (state is per dispatcher); it is opened and closed again after every call
+        bcls = self.desper.event_handler(**{e: 'got' for e in ('a', 'b', 'c')})(
+            type('Bystander', (), {'got': lambda self_, *a, **k: env.log.append((0, 'BYSTANDER', 'got'))}))
+        env.bystander = bcls()
+        env.d2 = self.desper.EventDispatcher()
+        env.d2.add_handler(env.bystander)
+        env.d2.dispatch_enabled = False
         self.orders = set()
 
     def _watch(self, h):
@@ -166,6 +187,7 @@ class DispatcherAdapter:
                 raise AssertionError('unknown action ' + name)
 
         _v, ex = guarded(call)
+        guarded(lambda: (setattr(env.d2, 'dispatch_enabled', True), setattr(env.d2, 'dispatch_enabled', False)))
         en = exc_name(ex)
         ret = 'ok' if ex is None else ('raised' if isinstance(ex, Boom) else en)
         del ex
